@@ -46,7 +46,7 @@ func (e *Engine) lemmaObligations(props map[string]bool) (obls []*Obligation, er
 			loopInfo: map[int]string{}, storeSites: map[*ssa.Store][]string{}, usedGlobalInvs: map[string]Clause{}, escCache: map[*ssa.Alloc]bool{}, ifaceTests: map[string]types.Type{}}
 		tr.entryHeap = tr.newRoot()
 		env := &Env{tr: tr, vars: map[string]Val{}, heap: tr.entryHeap, oldHeap: tr.entryHeap, quiet: true}
-		goal := env.evalGoal(lm.C.E)
+		goal := env.withPol(1).evalBool(lm.C.E) // no deferred existential instances: lemmas have no hypotheses to draw witnesses from
 		o := &Obligation{Name: "lemma." + lm.Name, Kind: "lemma", Fn: tr.name, Props: lm.Props, Guard: "true", Goal: goal,
 			NDecl: len(tr.smt.decls), NAssume: len(tr.assumes), Expect: "unsat", Clause: lm.C.Src, tr: tr, Pos: fmt.Sprintf("%s:%d", lm.C.File, lm.C.Line)}
 		tr.obls = append(tr.obls, o)
